@@ -157,14 +157,21 @@ class H2Protocol:
         # This should be run in a seperate task to the rest of this
         # class. This allows it seperately choose when to send,
         # crucially in what order.
-        while not self.closed:
-            try:
-                stream_id = next(self.priority)
-            except priority.DeadlockError:
-                await self.has_data.wait()
-                await self.has_data.clear()
-            else:
-                await self._send_data(stream_id)
+        try:
+            while not self.closed:
+                try:
+                    stream_id = next(self.priority)
+                except priority.DeadlockError:
+                    await self.has_data.wait()
+                    await self.has_data.clear()
+                else:
+                    await self._send_data(stream_id)
+        finally:
+            # Nothing will be sent from now on (the connection has
+            # closed or this task has been cancelled), release any
+            # send still waiting on a buffer.
+            for stream_buffer in list(self.stream_buffers.values()):
+                await stream_buffer.close()
 
     async def _send_data(self, stream_id: int) -> None:
         try:
